@@ -226,9 +226,9 @@ void lp_rational_interval_construct_from_int(lp_rational_interval_t* I,
     long b, int b_open)
 {
   assert(a <= b);
-  rational_construct_from_int(&I->a, a, 0);
+  rational_construct_from_int(&I->a, a, 1);
   if (a != b) {
-    rational_construct_from_int(&I->b, b, 0);
+    rational_construct_from_int(&I->b, b, 1);
     I->a_open = a_open;
     I->b_open = b_open;
     I->is_point = 0;
